@@ -126,6 +126,7 @@ pub fn get(prop: &str, tier: &str) -> Option<Check> {
                 batches.push(Batch { name: "mbap_chunking_client", f: scen::client_chunk::run, cfg: cfg(Mode::LockStep, false, 0), runs: n(20_000, 800_000), real: REAL_CLIENT_TCP, stub: STUB_CLIENT_TCP });
             }
             if p == "C10" || p == "C13" {
+                batches.push(Batch { name: "rtu_client_blocked_write", f: scen::robust::run_rtu_blocked_write, cfg: cfg(Mode::Racy, true, 0), runs: n(4_000, 100_000), real: REAL_CLIENT_RTU, stub: STUB_CLIENT_RTU });
                 batches.push(Batch { name: "client_blocked_write", f: scen::robust::run_client_blocked_write, cfg: cfg(Mode::Racy, true, 0), runs: n(5_000, 150_000), real: REAL_CLIENT_TCP, stub: STUB_CLIENT_TCP });
             }
             if p == "C10" {
@@ -188,6 +189,7 @@ pub fn get(prop: &str, tier: &str) -> Option<Check> {
             prop: "C07",
             rule_text: "each run: grammar-aware garbage (valid frames, bit flips, truncations, length-field lies, raw random bytes, long 0x00/0xFF runs, repeats; up to 4000 bytes, random chunking and pauses) fed to {TCP server sessions next to a healthy session, RTU server, TCP client with an outstanding request or idle, RTU client} at a random one of the 36 decode levels with every log line formatted, overflow checks and debug assertions on; oracle: no task poll panics, no task is polled 5000 times in a row or performs 300000 I/O operations inside one poll, the healthy session answers its sentinel, every submitted request completes exactly once, a follow-up exchange succeeds after the garbage, shutdown ends every task. Plus every other batch of this harness reports task panics under C07. Distinct = hash of (role, decode level, garbage prefixes).",
             batches: vec![
+                Batch { name: "rtu_server_blocked_write", f: scen::robust::run_rtu_blocked_write, cfg: cfg(Mode::Racy, true, 1), runs: n(2_000, 60_000), real: REAL_SERVER_RTU, stub: STUB_SERVER_RTU },
                 Batch { name: "tls_corruption_server", f: scen::tls::run_tls_corruption, cfg: cfg(Mode::Racy, true, 0), runs: n(600, 30_000), real: REAL_TLS, stub: STUB_TLS },
                 Batch { name: "tls_corruption_client", f: scen::tls::run_tls_corruption, cfg: cfg(Mode::Racy, true, 1), runs: n(600, 30_000), real: REAL_TLS, stub: STUB_TLS },
                 // configurations at the edge (max_sessions = 0) and session churn: a task that loops without yielding is caught by the hang watchdog
